@@ -12,6 +12,7 @@ K: the extracted model end to end (Lattice.find_all_plaquettes + Flux.fluxes_rea
   fluxes_from_ujk on random u and on ALL u in {-1,+1}^E for E <= 10 (quick) / 14 (thorough)."""
 from lib import *  # noqa
 import gen
+import argforms as AF
 from koala.lattice import Lattice, LatticeException
 from koala.flux_finder import fluxes_from_ujk, fluxes_to_labels
 
@@ -108,14 +109,39 @@ def make_us(rng, E, k):
     return us
 
 
+# ------------------------------------------------------------------ argument forms (argforms.py)
+# The bond array's dtype / memory layout is not part of its value: +-1 stored as int8 ... float64, read-only or as a
+# non-contiguous view must give the same fluxes.  The harness and the model keep working on the plain int array `u`;
+# only what is handed to koala is re-formed (form chosen from the content of u, so a failure replays).
+U_FORMS = ["int64", "int8", "int16", "int32", "float64", "float32", "int64+readonly", "float64+readonly", "int64+strided", "int8+strided"]
+FLUX_FORMS = ["int64", "int8", "float64", "int64+readonly", "int64+strided", "int8+strided"]
+FORMS_EXCLUDED = {("fluxes_from_ujk.ujk", "list/tuple"): "type hint and docstring say np.ndarray; ujk[p.edges] is numpy fancy indexing (a list raises TypeError)",
+                  ("fluxes_to_labels.fluxes", "list/tuple"): "type hint says np.ndarray; `1 - fluxes` is array arithmetic (a list raises TypeError)"}
+
+
+def arg_forms(res, arg, values):
+    """`values` (+-1 integers) in the form handed to koala for argument `arg` ('ujk' of fluxes_from_ujk / 'fluxes' of fluxes_to_labels)"""
+    values = np.asarray(values)
+    forms = U_FORMS if arg == "ujk" else (FLUX_FORMS + (["int64+F", "int8+F"] if values.ndim == 2 else []))
+    name = "fluxes_from_ujk.ujk" if arg == "ujk" else "fluxes_to_labels.fluxes"
+    form = AF.pick(forms, arg, values.astype(np.int64))
+    if not AF.fits(values, form):
+        form = "int64"      # (only reachable with a wrong flux value: keep it visible to the caller's own check)
+    AF.note(res, name, form)
+    for (a, f), why in FORMS_EXCLUDED.items():
+        AF.exclude(res, a, f, why)
+    return AF.as_form(values, form, base=np.int64)
+
+
 # ------------------------------------------------------------------ per (lattice, u) spec checks
 def spec_one(lat, u, with_moves, rng, max_moves, res, viol):
     """S on the implementation for one bond configuration.  viol(key, what, extra)"""
     F, E, V = lat.n_plaquettes, lat.n_edges, lat.n_vertices
     u_in = u.copy()
-    fr = fluxes_from_ujk(lat, u, real=True)
-    fc = fluxes_from_ujk(lat, u, real=False)
-    if not np.array_equal(u, u_in):
+    uf = arg_forms(res, "ujk", u)
+    fr = fluxes_from_ujk(lat, uf, real=True)
+    fc = fluxes_from_ujk(lat, uf, real=False)
+    if not np.array_equal(uf, u_in) or not np.array_equal(u, u_in):
         viol("input-modified", "fluxes_from_ujk modified the bond array passed to it", {})
     a, b = formula(lat, u)
     fri = exact_ints(fr)
@@ -135,7 +161,7 @@ def spec_one(lat, u, with_moves, rng, max_moves, res, viol):
     if fc.shape != (F,) or any(complex(fc[i]) != complex(exp_c[i]) for i in range(F)):
         i = next((i for i in range(min(F, fc.size)) if complex(fc.ravel()[i]) != complex(exp_c[i])), 0)
         viol("flux-formula-complex", f"plaquette {i} ({len(lat.plaquettes[i].edges)} sides): complex flux {fc.ravel()[i] if fc.size > i else None}, expected real flux * i^sides = {exp_c[i]}", {"plaquette": i})
-    lab = fluxes_to_labels(np.asarray(fr))
+    lab = fluxes_to_labels(arg_forms(res, "fluxes", fri))
     labi = exact_ints(lab)
     if labi != [0 if x == 1 else 1 for x in fri] and all(x in (1, -1) for x in fri):
         viol("labels", f"fluxes_to_labels({fri[:6]}) = {labi[:6] if labi else lab}", {})
@@ -161,8 +187,9 @@ def spec_one(lat, u, with_moves, rng, max_moves, res, viol):
     for v in vs:
         u2 = u.copy()
         u2[lat.vertices.adjacent_edges[v]] *= -1
-        g = fluxes_from_ujk(lat, u2, real=True)
-        gc = fluxes_from_ujk(lat, u2, real=False)
+        u2f = arg_forms(res, "ujk", u2)
+        g = fluxes_from_ujk(lat, u2f, real=True)
+        gc = fluxes_from_ujk(lat, u2f, real=False)
         res.extra["gauge_moves"] = res.extra.get("gauge_moves", 0) + 1
         if not np.array_equal(g, fr) or not np.array_equal(gc, fc):
             bad = np.nonzero(np.asarray(g) != np.asarray(fr))[0][:4].tolist()
@@ -171,8 +198,9 @@ def spec_one(lat, u, with_moves, rng, max_moves, res, viol):
     for e in es:
         u2 = u.copy()
         u2[e] *= -1
-        g = np.asarray(fluxes_from_ujk(lat, u2, real=True))
-        gc = np.asarray(fluxes_from_ujk(lat, u2, real=False))
+        u2f = arg_forms(res, "ujk", u2)
+        g = np.asarray(fluxes_from_ujk(lat, u2f, real=True))
+        gc = np.asarray(fluxes_from_ujk(lat, u2f, real=False))
         res.extra["bond_flips"] = res.extra.get("bond_flips", 0) + 1
         adj = sorted({int(x) for x in ep[e] if x != INVALID})
         flipped = sorted(np.nonzero(g != np.asarray(fr))[0].tolist())
@@ -185,12 +213,16 @@ def spec_one(lat, u, with_moves, rng, max_moves, res, viol):
 
 
 # ------------------------------------------------------------------ exhaustive over all u
-def exhaustive_tables(lat):
+def exhaustive_tables(lat, res):
     """implementation's flux for every u in {-1,+1}^E: u_n[k] = 1 - 2*bit_k(n)"""
     E, F = lat.n_edges, lat.n_plaquettes
     N = 1 << E
     bits = (np.arange(N)[:, None] >> np.arange(E)[None, :]) & 1
     U = (1 - 2 * bits).astype(int)
+    # argument form: the rows U[n] handed to koala are contiguous int64 / non-contiguous (rows of a Fortran-ordered table) / int8
+    tform = AF.pick(["int64", "int64+F", "int8", "int8+F"], "exhaustive", np.asarray(lat.edges.indices, dtype=np.int64))
+    U = AF.as_form(U, tform)
+    AF.note(res, "fluxes_from_ujk.ujk(exhaustive rows)", tform.replace("+F", "+strided-row"), N)
     TR = np.zeros((N, F), dtype=int)
     TC = np.zeros((N, F), dtype=complex)
     ok = True
@@ -206,7 +238,8 @@ def exhaustive_tables(lat):
 
 def spec_exhaustive(lat, res, viol):
     E, F, V = lat.n_edges, lat.n_plaquettes, lat.n_vertices
-    U, TR, TC = exhaustive_tables(lat)
+    U, TR, TC = exhaustive_tables(lat, res)
+    U = np.ascontiguousarray(U, dtype=int)
     if TR is None:
         viol("flux-formula-real", "fluxes_from_ujk did not return one value per plaquette", {})
         return None, None
@@ -234,7 +267,7 @@ def spec_exhaustive(lat, res, viol):
         n, i = [int(x[0]) for x in np.nonzero(TC != EXP * ipow[None, :])]
         viol("flux-formula-complex", f"plaquette {i} ({len(lat.plaquettes[i].edges)} sides): complex flux {TC[n, i]}, expected {EXP[n, i] * ipow[i]}", {"u": U[n].tolist(), "plaquette": i})
     # labels on the whole table (elementwise function) and row by row for a few
-    lab = np.asarray(fluxes_to_labels(TR))
+    lab = np.asarray(fluxes_to_labels(arg_forms(res, "fluxes", TR)))
     if lab.shape != TR.shape or not np.array_equal(lab, np.where(TR == 1, 0, 1)):
         viol("labels", "fluxes_to_labels does not map +1 -> 0, -1 -> 1", {})
     ar = np.arange(N)
@@ -464,7 +497,7 @@ def evaluate(ctx, cases, label, n_u=3, exhaustive_max=10, exhaustive_cap=None, m
                 break
             if fri is None:
                 continue
-            fc = np.asarray(fluxes_from_ujk(lat, u, real=False))
+            fc = np.asarray(fluxes_from_ujk(lat, arg_forms(res, "ujk", u), real=False))
             # extracted spec on the implementation's plaquettes
             if o[f"pm{i}"][0] != "1":
                 raise RuntimeError("harness generated a non +-1 bond array")
@@ -474,7 +507,7 @@ def evaluate(ctx, cases, label, n_u=3, exhaustive_max=10, exhaustive_cap=None, m
                     viol("flux-formula-real", f"extracted flux_real/flux_spec on the implementation's plaquettes = {ir[:6]}, fluxes_from_ujk = {fri[:6]}", {})
                 if not cplx_eq(fc, ic):
                     viol("flux-formula-complex", f"extracted flux_cplx on the implementation's plaquettes = {ic[:4]}, fluxes_from_ujk(real=False) = {fc[:4]}", {})
-                if exact_ints(fluxes_to_labels(np.asarray(fri))) != lab:
+                if exact_ints(fluxes_to_labels(arg_forms(res, "fluxes", fri))) != lab:
                     viol("labels", f"extracted fluxes_to_labels = {lab[:6]}", {})
             # K: model end to end
             if generic:
